@@ -479,6 +479,17 @@ func (t *ftr) fxTranslated(name string, d *doneFn, c *ast.CallExpr) *fxRes {
 		}
 		lead = append([]string{"io", t.fsx()}, lead...)
 	}
+	// f(&sb, …): the address of a builder passed as io.Writer is the builder itself (in-out)
+	cc := *c
+	cc.Args = append([]ast.Expr{}, c.Args...)
+	for i, arg := range cc.Args {
+		if u, ok := arg.(*ast.UnaryExpr); ok && u.Op == token.AND {
+			if id, ok := u.X.(*ast.Ident); ok && t.builder[id.Name] {
+				cc.Args[i] = id
+			}
+		}
+	}
+	c = &cc
 	a, p, ok := t.args(name, c, d.params)
 	if !ok {
 		return nil
@@ -629,6 +640,13 @@ func (t *ftr) ioExpr(e ast.Expr, hint *ty) (ex, bool) {
 				return ex{t.ln(id.Name), tDecls, false}, true
 			}
 		}
+		if id, ok := e.X.(*ast.Ident); ok && id.Name == "colors" && t.lookup("colors") == nil {
+			switch e.Sel.Name {
+			case "Yellow", "Green", "Red", "Dim", "BoldWhite", "RedBg", "GreenBG", "Reddiff", "Greendiff":
+				// a colour is never rendered in the NO_COLOR semantics of the translation
+				return ex{"([] : List UInt8)", tText, false}, true
+			}
+		}
 		if t.sp.fx == "st" {
 			switch t.src(e) {
 			case "testsRegistry.cleanup":
@@ -639,6 +657,17 @@ func (t *ftr) ioExpr(e ast.Expr, hint *ty) (ex, bool) {
 				return ex{"st.skipped", tTexts, false}, true
 			case "testEvents.items":
 				return ex{"st.events", tMap1, false}, true
+			}
+		}
+	case *ast.IndexExpr:
+		// testEvents[passed]: the map is keyed by the event kind, represented by the constant's name
+		if k, ok := e.Index.(*ast.Ident); ok && t.lookup(k.Name) == nil {
+			switch k.Name {
+			case "erred", "added", "updated", "passed":
+				x := t.expr(e.X)
+				if t.err == nil && x.t.k == "map1" {
+					return ex{"(GoSnaps.GoIO.map1Get " + x.s + " " + bytesLit(k.Name) + ")", tInt, x.p}, true
+				}
 			}
 		}
 	case *ast.CompositeLit:
@@ -908,6 +937,38 @@ func (t *ftr) ioStmt(b *strings.Builder, ind string, st ast.Stmt, res *ty) bool 
 			return true
 		}
 		if c, ok := s.X.(*ast.CallExpr); ok {
+			if id, ok := c.Fun.(*ast.Ident); ok {
+				if ft := t.lookup(id.Name); ft != nil && ft.k == "func" && ft.res.k == "unit" {
+					a, p, ok := t.args(id.Name, c, ft.params)
+					if !ok {
+						b.WriteString(ind + "sorry\n")
+						return true
+					}
+					if p {
+						t.stmtFail(b, ind, "argument of %s can panic", id.Name)
+						return true
+					}
+					var capsL []string
+					for _, cp := range ft.caps {
+						capsL = append(capsL, t.ln(cp))
+					}
+					call := t.ln(id.Name) + " " + strings.Join(append(capsL, a...), " ")
+					switch len(ft.caps) {
+					case 0:
+						fmt.Fprintf(b, "%s-- %s (no effect)\n", ind, t.src(s.X))
+					case 1:
+						fmt.Fprintf(b, "%s%s := %s\n", ind, capsL[0], call)
+					default:
+						t.tmp++
+						r := fmt.Sprintf("r_%d", t.tmp)
+						fmt.Fprintf(b, "%slet %s := %s\n", ind, r, call)
+						for j, cp := range capsL {
+							fmt.Fprintf(b, "%s%s := %s\n", ind, cp, proj(r, j, len(capsL)))
+						}
+					}
+					return true
+				}
+			}
 			switch selName(c.Fun) {
 			case "clear":
 				if len(c.Args) == 1 {
@@ -1083,6 +1144,14 @@ func (t *ftr) ioStmt(b *strings.Builder, ind string, st ast.Stmt, res *ty) bool 
 		}
 		// colors.Fprint(&sb, colour, text): NO_COLOR rendering appends the text
 		if c, ok := s.X.(*ast.CallExpr); ok && selName(c.Fun) == "colors.Fprint" && len(c.Args) == 3 {
+			if id, ok := c.Args[0].(*ast.Ident); ok && t.builder[id.Name] {
+				// the writer parameter itself
+				x := t.expr(c.Args[2])
+				if t.err == nil && x.t.k == "text" && !x.p {
+					fmt.Fprintf(b, "%s%s := %s ++ %s\n", ind, t.ln(id.Name), t.ln(id.Name), x.s)
+					return true
+				}
+			}
 			if u, ok := c.Args[0].(*ast.UnaryExpr); ok && u.Op == token.AND {
 				if id, ok := u.X.(*ast.Ident); ok && t.builder[id.Name] {
 					x := t.expr(c.Args[2])
@@ -1186,6 +1255,127 @@ func (t *ftr) rangeMap1(s *ast.RangeStmt, xs ex, k, v, ind string, res *ty) stri
 	b.WriteString(t.block(s.Body.List, ind+"  ", res))
 	t.pop()
 	return b.String()
+}
+
+// closure: f := func(params) { body } without results.  The body may append to builders of the
+// enclosing function (colors.Fprint(&s, …), s.WriteString(…)): those are passed to and returned from
+// the Lean function, and a call `f(args)` becomes `s := f s args`.  Other captured variables are
+// read-only (checked: the body assigns no variable it does not define).
+func (t *ftr) closure(b *strings.Builder, ind, name string, fl *ast.FuncLit, ps []param) {
+	if t.muts[name] {
+		t.stmtFail(b, ind, "function variable %s is reassigned", name)
+		return
+	}
+	// captured builders the body writes to
+	capSet := map[string]bool{}
+	ast.Inspect(fl.Body, func(n ast.Node) bool {
+		c, ok := n.(*ast.CallExpr)
+		if !ok {
+			return true
+		}
+		if id, _, _, ok := recvCall(c); ok && t.builder[id.Name] {
+			capSet[id.Name] = true
+		}
+		for _, a := range c.Args {
+			if u, ok := a.(*ast.UnaryExpr); ok && u.Op == token.AND {
+				if id, ok := u.X.(*ast.Ident); ok && t.builder[id.Name] {
+					capSet[id.Name] = true
+				}
+			}
+		}
+		return true
+	})
+	var caps []string
+	for c := range capSet {
+		caps = append(caps, c)
+	}
+	sortStrings(caps)
+	// the body must not assign any other captured variable
+	whole, indexed := assignedIn(fl.Body)
+	defined := map[string]bool{}
+	for _, p := range ps {
+		defined[p.name] = true
+	}
+	ast.Inspect(fl.Body, func(n ast.Node) bool {
+		if as, ok := n.(*ast.AssignStmt); ok && as.Tok == token.DEFINE {
+			for _, l := range as.Lhs {
+				if id, ok := l.(*ast.Ident); ok {
+					defined[id.Name] = true
+				}
+			}
+		}
+		if rs, ok := n.(*ast.RangeStmt); ok && rs.Tok == token.DEFINE {
+			for _, l := range []ast.Expr{rs.Key, rs.Value} {
+				if id, ok := l.(*ast.Ident); ok {
+					defined[id.Name] = true
+				}
+			}
+		}
+		return true
+	})
+	for n := range whole {
+		if !defined[n] && !strings.HasSuffix(n, "#2") && n != "?" && n != "_" {
+			t.stmtFail(b, ind, "the closure %s assigns the captured variable %s", name, n)
+			return
+		}
+	}
+	if len(indexed) > 0 || whole["?"] {
+		t.stmtFail(b, ind, "the closure %s has an unsupported assignment", name)
+		return
+	}
+	var binders []string
+	var pts []*ty
+	for _, c := range caps {
+		binders = append(binders, "("+t.ln(c)+" : List UInt8)")
+	}
+	// translate the body in a nested context: the captured builders are mutable locals, `return` yields them
+	savedRets, savedSp := t.rets, t.sp
+	spc := *t.sp
+	spc.inout = caps
+	if spc.fx == "rw" || spc.fx == "st" {
+		spc.fx = "ro" // a closure that changed the file system or the state would need them threaded too
+	}
+	t.sp = &spc
+	t.rets = nil
+	t.push()
+	var pre strings.Builder
+	for _, c := range caps {
+		fmt.Fprintf(&pre, "%s  let mut %s := %s\n", ind, t.ln(c), t.ln(c))
+	}
+	for _, p := range ps {
+		t.bind(p.name, p.t)
+		binders = append(binders, "("+leanIdent(p.name)+" : "+p.t.lean()+")")
+		pts = append(pts, p.t)
+	}
+	partialBefore := t.partial
+	t.partial = false
+	body := t.block(fl.Body.List, ind+"  ", nil)
+	closurePartial := t.partial
+	t.partial = partialBefore
+	t.pop()
+	t.rets, t.sp = savedRets, savedSp
+	if t.err != nil {
+		b.WriteString(ind + "sorry\n")
+		return
+	}
+	if closurePartial {
+		t.stmtFail(b, ind, "the closure %s contains an operation that can panic", name)
+		return
+	}
+	var capsL []string
+	for _, c := range caps {
+		capsL = append(capsL, t.ln(c))
+	}
+	fmt.Fprintf(b, "%slet %s := fun %s => Id.run do\n%s%s%s  return %s\n", ind, leanIdent(name), strings.Join(binders, " "), pre.String(), body, ind, tupleText(capsL))
+	t.bind(name, &ty{k: "func", params: pts, res: tUnit, caps: caps})
+}
+
+func sortStrings(a []string) {
+	for i := 1; i < len(a); i++ {
+		for j := i; j > 0 && a[j] < a[j-1]; j-- {
+			a[j], a[j-1] = a[j-1], a[j]
+		}
+	}
 }
 
 // exprMulti: an expression in a position that receives n values
